@@ -153,6 +153,15 @@ func cmdCheck(args []string) int {
 		all = append(all, r.VCs...)
 	}
 	genSecs := time.Since(t0).Seconds() - loadSecs
+	for _, k := range loadKnown() {
+		if k.Kind == "known" && k.Property == id {
+			for _, vc := range all {
+				if vc.Obl == k.Obligation {
+					vc.Known = true
+				}
+			}
+		}
+	}
 	secs, mode := 10, "quick"
 	if *tier == "thorough" {
 		secs, mode = 60, "all"
